@@ -80,7 +80,14 @@ POSITIONS = [
     ("group-in-object", "OBJECT = o\n GROUP = g\n  k = ({v}, {v} <m>)\n END_GROUP\n q = {v}\nEND_OBJECT\nz = {v}\n", 0),
     ("object-in-object", "OBJECT = o\n OBJECT = o\n  k = {v}\n END_OBJECT\nEND_OBJECT\nOBJECT = o\n k = {v}\nEND_OBJECT\n", 0),
     ("after-comment", "/* c */ k = /* d */ {v} /* e */ <m>\nEND\n", 0),
+    # the same number written twice, differently ({w} is another spelling of {v})
+    ("twice-quantity", "k = {v} <m>\nj = {w} <m>\ni = {v} <m>\n", 0),
+    ("twice-quantity-in-seq", "k = ({w} <m>, {v} <m>, {w} <s>)\n", 0),
+    ("twice-plain", "k = ({w}, {v})\nj = {v}\ni = {w}\n", 0),
+    ("twice-in-blocks", "GROUP = g\n k = {v} <m>\nEND_GROUP\nOBJECT = o\n k = {w} <m>\nEND_OBJECT\n", 0),
 ]
+ALT = {"1.50": "1.5", "0.10": "0.100", "1.0E3": "1000.0", "-2.50": "-2.5", "+.5": "0.50", "1.": "1", "100.000": "100",
+       "7": "7.0", "-3": "-3.00", "16#FF#": "255.0", "0": "0.0"}
 # third field: 0 = all dialects; 1 = not ODL/PDS3 (ODL has no such construct); 2 = only where a
 # quantity is hashable (default Quantity is a namedtuple: fine; RecQ defines __hash__)
 
@@ -118,10 +125,16 @@ def load(d, text, real, qty, cont):
     return parser_for(d, real, qty, cont).parse(text)
 
 
-def walk(v, real, qty, cont, spelled, problems, path, top=False):
+def walk(v, real, qty, cont, spelled, problems, path, top=False, key=None):
     """checks the classes at every depth and returns the value mapped back to
-    the default classes"""
+    the default classes.  `spelled` is the queue of real-number spellings in
+    textual order (consumed depth first)."""
     if isinstance(v, impl.OrderedMultiDict):
+        # the generator names groups 'g' and objects 'o'
+        if key == "g" and not isinstance(v, impl.PVLGroup):
+            problems.append("%s: a GROUP block came back as %s" % (path, type(v).__name__))
+        if key == "o" and not isinstance(v, impl.PVLObject):
+            problems.append("%s: an OBJECT block came back as %s" % (path, type(v).__name__))
         want = {impl.PVLModule: MyModule, impl.PVLGroup: MyGroup, impl.PVLObject: MyObject}
         if cont:
             if type(v) not in (MyModule, MyGroup, MyObject):
@@ -132,7 +145,7 @@ def walk(v, real, qty, cont, spelled, problems, path, top=False):
             if type(v) not in want:
                 problems.append("%s: container is %s" % (path, type(v).__name__))
             base = type(v)
-        return base([(k, walk(x, real, qty, cont, spelled, problems, path + "." + str(k))) for k, x in v])
+        return base([(k, walk(x, real, qty, cont, spelled, problems, path + "." + str(k), key=k)) for k, x in v])
     if isinstance(v, RecQ) or isinstance(v, impl.Quantity):
         if (qty == "RecQ") != isinstance(v, RecQ):
             problems.append("%s: value-with-units is %s, quantity class requested %s" % (path, type(v).__name__, qty))
@@ -150,6 +163,7 @@ def walk(v, real, qty, cont, spelled, problems, path, top=False):
         problems.append("%s: integer came back as %s" % (path, type(v).__name__))
         return int(v)
     # a real
+    text = spelled.pop(0) if spelled else None
     if real == "float":
         if type(v) is not float:
             problems.append("%s: real is %s, expected float" % (path, type(v).__name__))
@@ -158,26 +172,37 @@ def walk(v, real, qty, cont, spelled, problems, path, top=False):
         if type(v) is not Decimal:
             problems.append("%s: real is %s, expected Decimal" % (path, type(v).__name__))
             return float(v)
-        if str(v) != str(Decimal(spelled)) and spelled_is_real(spelled):
-            problems.append("%s: Decimal lost written digits: %r from %r" % (path, str(v), spelled))
+        if text is not None and str(v) != str(Decimal(text)):
+            problems.append("%s: Decimal lost written digits: %r from %r" % (path, str(v), text))
         return float(v)
     if real == "Rec":
         if type(v) is not Rec:
             problems.append("%s: real is %s, expected the recording class" % (path, type(v).__name__))
             return float(v)
-        if v.text != spelled and spelled_is_real(spelled):
-            problems.append("%s: real class was handed %r, the text says %r" % (path, v.text, spelled))
+        if text is not None and v.text != text:
+            problems.append("%s: real class was handed %r, the text says %r" % (path, v.text, text))
         return float(v)
     return v
 
 
 def spelled_is_real(s):
-    return s in REALS
+    return ("." in s or "E" in s) and "#" not in s
+
+
+def real_queue(tmpl, v, w):
+    """spellings of the reals of the document in textual order, or None when the
+    order of the result is not textual (sets with more than one real)"""
+    out = []
+    for m in __import__("re").finditer(r"\{([vw])\}", tmpl.replace("{{", "").replace("}}", "")):
+        t = v if m.group(1) == "v" else w
+        if spelled_is_real(t):
+            out.append(t)
+    return out
 
 
 def check_case(case):
-    d, text, real, qty, cont, spelled = (case["dialect"], case["text"], case["real"], case["qty"],
-                                         case["cont"], case["spelled"])
+    d, text, real, qty, cont = (case["dialect"], case["text"], case["real"], case["qty"], case["cont"])
+    spelled = list(case["reals"])
     out = []
     try:
         base = load(d, text, "float", "Quantity", False)
@@ -208,12 +233,12 @@ def shard(spec):
     if restrict == 1 and d in ("ODL", "PDS3"):
         return acc
     for spelled in REALS + INTS:
-        text = tmpl.format(v=spelled)
+        text = tmpl.format(v=spelled, w=ALT[spelled])
         for real, qty, cont in itertools.product(("float", "Decimal", "Rec"), ("Quantity", "RecQ"), (False, True)):
             if restrict == 2 and d in ("ODL", "PDS3"):
                 continue
-            case = {"dialect": d, "text": text, "real": real, "qty": qty, "cont": cont, "spelled": spelled,
-                    "position": name}
+            case = {"dialect": d, "text": text, "real": real, "qty": qty, "cont": cont,
+                    "reals": real_queue(tmpl, spelled, ALT[spelled]), "position": name}
             vs, status = check_case(case)
             acc.n += 1
             acc.traces += 1
